@@ -9,6 +9,7 @@ PROPERTIES[id] = {
 """
 import json
 import os
+import re
 import subprocess
 
 
@@ -285,10 +286,19 @@ def rel_str(kind, op, detail):
 GROW_OPS = {"ext", "open", "cap", "rcap"}
 
 
+def only_slot_differs(detail):
+    """A tree `ins` result mismatch where both sides succeeded and only the returned record index differs
+    (a format matter, C10 — C01/C07 compare insert as "succeeded or not")."""
+    m = re.search(r"implementation (some \d+|none|fault \w+), model (some \d+|none|fault \w+)\s*$", detail or "")
+    return bool(m) and m.group(1).startswith("some") and m.group(2).startswith("some")
+
+
 def rel_C01(kind, op, detail):
     if kind in ("decode", "parse", "wf-bst"):
         return True
-    if kind in ("result", "abs") and op not in GROW_OPS and op != "fill":
+    if kind == "result" and op == "ins" and only_slot_differs(detail):
+        return False
+    if kind in ("result", "abs") and op not in GROW_OPS and op not in ("fill", "dlen"):
         return True
     return False
 
@@ -304,6 +314,8 @@ def rel_C06(kind, op, detail):
 def rel_C07(kind, op, detail):
     if kind in ("decode", "parse", "wf-alloc"):
         return True
+    if kind == "result" and op == "ins" and only_slot_differs(detail):
+        return False
     return kind == "result" and op in ("fill", "full", "rfull", "ins")
 
 
